@@ -23,7 +23,8 @@ import (
 // entry points that parse CAR data; each returns a result class for the ones that have a model
 // ("r=…") or an informational class ("_r=…").
 var c09Entries = []string{"next-seek", "next-plain", "skip-seek", "skip-plain", "inspect-full", "inspect-quick",
-	"genindex-seek", "genindex-plain", "readorgen", "indexread", "readonly", "readable", "replaceroots", "extract", "root", "skip-dr", "next-dr"}
+	"genindex-seek", "genindex-plain", "readorgen", "indexread", "readonly", "readable", "replaceroots", "extract", "root", "skip-dr", "next-dr",
+	"readversion", "indexreader", "genindexfile", "openreader"}
 
 // guarded runs f, catching panics, timing it and measuring the bytes it allocates.
 func guarded(f func() string) (res string, panicked bool, alloc uint64, dur time.Duration) {
@@ -169,6 +170,50 @@ func runEntry(ep string, ro readOpts, in []byte, seq int) string {
 			}
 		}
 		return fmt.Sprintf("_r=ok _k=%d", n)
+	case "readversion":
+		v, err := carv2.ReadVersion(bytes.NewReader(in), opts...)
+		if err != nil {
+			return "_r=" + classifyIdx(err)
+		}
+		return fmt.Sprintf("_r=ok _v=%d", v)
+	case "indexreader":
+		// the index as the container hands it out, then the index parser on it
+		rd, err := carv2.NewReader(bytes.NewReader(in), opts...)
+		if err != nil {
+			return "_r=" + classifyIdx(err)
+		}
+		ir, err := rd.IndexReader()
+		if err != nil || ir == nil {
+			return "_r=noindex"
+		}
+		idx, err := index.ReadFrom(ir)
+		if err != nil {
+			return "_r=err"
+		}
+		n := 0
+		if it, ok := idx.(index.IterableIndex); ok {
+			it.ForEach(func(m mh.Multihash, o uint64) error { n++; return nil })
+		}
+		return fmt.Sprintf("_r=ok _n=%d", n)
+	case "genindexfile", "openreader":
+		p := tmpPath(fmt.Sprintf("c09-of-%d.car", seq))
+		os.WriteFile(p, in, 0o644)
+		defer os.Remove(p)
+		if ep == "genindexfile" {
+			idx, err := carv2.GenerateIndexFromFile(p, opts...)
+			if err != nil {
+				return "_r=" + classifyIdx(err)
+			}
+			return "_r=ok _each=" + fmt.Sprint(len(eachIndex(idx)))
+		}
+		rd, err := carv2.OpenReader(p, opts...)
+		if err != nil {
+			return "_r=" + classifyIdx(err)
+		}
+		defer rd.Close()
+		rs, rerr := rd.Roots()
+		_, ierr := rd.Inspect(false)
+		return fmt.Sprintf("_r=ok _roots=%d _rerr=%s _inspect=%s", len(rs), okOrErr(rerr), okOrErr(ierr))
 	case "replaceroots":
 		p := tmpPath(fmt.Sprintf("c09-rr-%d.car", seq))
 		os.WriteFile(p, in, 0o644)
